@@ -1682,7 +1682,8 @@ pub assume_specification [<{q} as PartialEq>::eq] (a: &{q}, b: &{q}) -> (r: bool
         for s in self.inside:
             t = s.text
             if s.clause and s.clause in exclude:
-                t = 'true'
+                # a listed known finding: a clause is replaced by `true`, a whole lemma (one obligation) is left out
+                t = '' if self.clauses.get(s.clause, {}).get('kind') == 'lemma' else 'true'
             if canary and s.clause is None and False:
                 pass
             bt = t.encode()
